@@ -369,7 +369,13 @@ func newCache(cfg Cfg, s *Scenario) cacheAPI {
 	closed, maxc := c.Cells()
 	set := map[uintptr]struct{}{}
 	if closed == nil || maxc == nil {
-		// the cells could not be located in this tree: every atomic operation is a schedule point
+		// the cells could not be located in this tree: every atomic operation is a schedule point,
+		// except (unless the scenario asks for them) the striped metric counters, whose adds commute
+		if !cfg.MetricPoints {
+			for _, p := range ristretto.VerifMetricCellAddrs(c.Metrics()) {
+				set[uintptr(p)] = struct{}{}
+			}
+		}
 		vsched.ExemptAtomics(set)
 	} else if c.Metrics() == nil || cfg.MetricPoints {
 		if !hasClose {
